@@ -6,7 +6,7 @@
    PARTIAL: "cleartext never appears on the wire" is a statement about the real cipher output; the
    theorem below shows every emitted datagram is a seal of the payload, the byte-level absence of
    the cleartext is checked on the real datagrams by py/props/c02.py. *)
-From VpnModel Require Import Base Nonce NonceProofs Replay Core CoreProofs Conn PeerCrypto SealProofs Node NodeProofs.
+From VpnModel Require Import Base Nonce NonceProofs Replay Core CoreProofs Conn PeerCrypto SealProofs Table Node NodeProofs EndToEndProofs.
 
 (* what one end seals the other end opens byte-identical (same key under the key id, nonce reconstructible, window admits) *)
 Theorem C02_core_roundtrip : forall c1 c2 p, wf_core c1 -> wf_core c2 ->
@@ -46,6 +46,19 @@ Theorem C02_pc_roundtrip : forall ok p1 p2 c1 c2 ty body p1' w, pc_plain p1 = fa
   pc_seal p1 ty body = (p1', Ok w) ->
   snd (fst (pc_handle ok p2 w)) = Ok (MMessage ty body).
 Proof. exact pc_roundtrip. Qed.
+
+(* node to node: the receiving node hands to its interface exactly the bytes the sending node read from its interface *)
+Theorem C02_node_end_to_end : forall salts now now' nA nB frame s d s' d' addrA addrB pdA pdB cA cB tA',
+  parse_frame (n_cfg nA) frame = Ok (s, d) ->
+  table_lookup (n_table nA) now d = (Some addrB, tA') ->
+  aget (n_peers nA) addrB = Some pdA -> pc_plain (p_crypto pdA) = false -> pc_core (p_crypto pdA) = Some cA ->
+  aget (n_peers nB) addrA = Some pdB -> aget (n_pending nB) addrA = None ->
+  pc_plain (p_crypto pdB) = false -> pc_core (p_crypto pdB) = Some cB ->
+  in_sync cA cB ->
+  parse_frame (n_cfg nB) frame = Ok (s', d') ->
+  exists w, snd (handle_iface salts now nA frame) = [XSend addrB w] /\
+            snd (handle_net salts now' nB addrA w) = [XWrite frame].
+Proof. exact unicast_end_to_end. Qed.
 
 (* the node writes to its interface exactly the body of a DATA message, or nothing *)
 Theorem C02_interface_gets_body : forall salts now n src body reply,
@@ -105,6 +118,7 @@ Print Assumptions C02_nonce_reconstructed.
 Print Assumptions C02_pc_sealed.
 Print Assumptions C02_wire_shape.
 Print Assumptions C02_pc_roundtrip.
+Print Assumptions C02_node_end_to_end.
 Print Assumptions C02_interface_gets_body.
 Print Assumptions C02_open_iff.
 Print Assumptions C02_reflected.
